@@ -19,6 +19,8 @@ def _has_proxy(args):
     for a in args:
         if _isinstance(a, Proxy):
             return True
+        if _type(a) in (tuple, list) and a and _has_proxy(a):
+            return True
     return False
 
 
@@ -72,6 +74,8 @@ class VF(object):
             if _isinstance(x, SymStr): return x
             if _isinstance(x, SymInt): return SymStr.lift(x)
             raise Unsupported('str(%s)' % _type(x).__name__)
+        if f is repr:
+            return SymStr([('opq', 'repr(%s)' % _type(x).__name__)])
         if f is callable:
             return False
         if f is issubclass:
@@ -186,7 +190,9 @@ def _sym_format(fmt, args):
             continue
         a = args[name] if name is not None else next(it)
         spec = fmt[m.start():m.end()]
-        if not _isinstance(a, Proxy):
+        if _type(a) in (tuple, list) and _has_proxy(a):
+            out = out + SymStr([('opq', 'container-with-proxy%%%s' % conv)])
+        elif not _isinstance(a, Proxy):
             if name is not None:
                 spec = '%' + spec[spec.index(')') + 1:]
             out = out + (spec % (a,))
@@ -202,7 +208,7 @@ def _sym_format(fmt, args):
 builtins.__vf__ = VF
 
 BUILTINS = {'isinstance', 'issubclass', 'type', 'callable', 'len', 'int', 'float', 'str', 'bool', 'abs', 'min', 'max',
-            'divmod', 'hash'}
+            'divmod', 'hash', 'repr'}
 
 
 def _vf(name, *args):
